@@ -349,6 +349,38 @@ example : ValidFrame [0, 0, 0, 6, 9, 9] := by simp [ValidFrame, fromBe]
 example : (([[0, 0, 0, 4], [0], [0, 0, 5, 7]] : List Bytes).foldl Conn.arrive {}).delivered
     = [[0, 0, 0, 4], [0, 0, 0, 5, 7]] := by decide
 
+/-- **sharing one codec value between connections**: in the model the extractor is a function of the
+    stream it is given, so what one connection yields does not depend on the other connection's
+    octets, read sizes or timing.  The implementation is held to this by the correspondence run
+    (`frame pair`: two connections, one codec value, strictly alternating reads). -/
+theorem C04_connections_independent (a b b' : Bytes) :
+    (blockedPair a b).1 = (blockedPair a b').1 ∧ (blockedPair b a).2 = (blockedPair b' a).2 := ⟨rfl, rfl⟩
+
+def okFrames : List (Except BErr Bytes) → List Bytes
+  | [] => []
+  | .ok f :: rs => f :: okFrames rs
+  | .error _ :: rs => okFrames rs
+
+/-- a drained connection yields consecutive pieces of its own stream: the frames handed out, concatenated, are a
+    prefix of what was sent on that connection (nothing invented, nothing skipped, nothing from elsewhere) -/
+theorem C04_drained_frames_are_stream_prefix (fuel : Nat) (data : Bytes) :
+    (okFrames (blockedAll fuel data)).flatten <+: data := by
+  induction fuel generalizing data with
+  | zero => simp [blockedAll, okFrames]
+  | succ k ih =>
+    unfold blockedAll
+    cases h : decodeBlocked ⟨data, false⟩ with
+    | mk r n =>
+      cases r with
+      | error e => simp [okFrames]
+      | ok f =>
+        have hp := C04_blocked_no_partial ⟨data, false⟩ f n h
+        simp only [okFrames, List.flatten_cons]
+        obtain ⟨t, ht⟩ := ih (data.drop n)
+        refine ⟨t, ?_⟩
+        rw [List.append_assoc, ht, hp.1]
+        exact List.take_append_drop n data
+
 end SmsVerif.C04
 
 section
@@ -361,4 +393,6 @@ open SmsVerif.C04
 #print axioms C04_blocked_no_partial
 #print axioms C04_blocked_short_prefix
 #print axioms C04_blocked_truncated
+#print axioms C04_connections_independent
+#print axioms C04_drained_frames_are_stream_prefix
 end
